@@ -13,10 +13,11 @@ U4 = "u4_params"
 U4S = "u4_params_safety"
 U5 = "u5_hub"
 U6 = "u6_text"
+U7 = "u7_reassembly"
 
 # units verified as watch-only auxiliaries by every check that has a witness search (U4S is left out:
 # it repeats U4's function without preconditions and fails by design at the known findings D9)
-ALL_UNITS = [U1, U2, U3, U4, U5, U6]
+ALL_UNITS = [U1, U2, U3, U4, U5, U6, U7]
 
 PROPS = {
     "C01": {
@@ -24,7 +25,7 @@ PROPS = {
         "title": "Inbound packets are reassembled exactly under every transport chunking",
         "kani": [("k1_frames", None)],
         "native": ["n1_packet"],
-        "verus": [(U1, ["U1.next"]), (U5, ["C02.run.log", "U5.run"])],
+        "verus": [(U1, ["U1.next"]), (U7, ["C05.packet", "C20.packet"]), (U5, ["C02.run.log", "U5.run"])],
     },
     "C02": {
         # a command that is not reassembled exactly (C01), or whose fragments are wrongly judged out of
@@ -34,7 +35,7 @@ PROPS = {
         "title": "Each client command reaches exactly the right shim callback, verbatim",
         "kani": [("k2_commands", ["k2_parse_text_03", "k2_parse_text_04", "k2_parse_text_02", "k2_parse_text_16", "k2_parse_stmt_17", "k2_parse_stmt_18", "k2_parse_stmt_19", "k2_parse_other_01", "k2_parse_other_0e", "k2_parse_other_rest"]), ("k1_frames", None)],
         "native": ["n1_packet"],
-        "verus": [(U5, ["U5."]), (U1, ["U1.next"])],
+        "verus": [(U5, ["U5."]), (U1, ["U1.next"]), (U7, [])],
     },
     "C03": {
         "witness": ("w_server", ['w_c03_responses', 'w_c07_binary', 'w_c14_counts']),
@@ -58,7 +59,7 @@ PROPS = {
         "title": "Response sequence ids continue the request's and wrap modulo 256",
         "kani": [("k1_frames", None)],
         "native": ["n1_packet"],
-        "verus": [(U1, ["C04.end", "C04.write", "U1.end"]), (U5, [])],
+        "verus": [(U1, ["C04.end", "C04.write", "U1.end"]), (U7, ["C01.packet"]), (U5, [])],
     },
     "C06": {
         "native": ["n2_text"],
@@ -163,6 +164,6 @@ PROPS = {
         "title": "No client byte sequence can crash or wedge a connection",
         "kani": [("k1_frames", None), ("k2_commands", None), ("k3_decode", ["k3_parse_fixed", "k3_parse_bytes", "k3_parse_temporal"])],
         "native": ["n1_packet"],
-        "verus": [(U1, ["U1.next", "C01.next"]), (U4S, ["U4."]), (U5, ["U5.", "C12.run", "C12.init"])],
+        "verus": [(U1, ["U1.next", "C01.next"]), (U7, ["C01.packet"]), (U4S, ["U4."]), (U5, ["U5.", "C12.run", "C12.init"])],
     },
 }
